@@ -65,3 +65,50 @@ func VerifC07_lru() {
 func VerifC07_adapter() {
 	verifTTLStep(NewSimpleCacheAdapter(&verifSimpleCache{m: map[string]RedisMessage{}}))
 }
+
+// VerifC07_batch: the batched lookup (lru.Flights, used by DoMultiCache) gives every missed
+// command its own client TTL, whatever mix of hits, in-flight entries and misses precedes it.
+func VerifC07_batch() {
+	const lim = int64(1) << 40
+	c := newLRU(CacheStoreOption{CacheSizeEachConn: 1 << 30}).(*lru)
+	t0 := verifNondetInt64()
+	verifAssume(t0 >= 1 && t0 < lim)
+	now := verifTimeMs(t0)
+	n := 2 + verifChoose(2)
+	keys := []string{"a", "b", "c"}
+	multi := make([]CacheableTTL, n)
+	ttl := make([]int64, n)
+	pre := make([]int, n) // 0 miss, 1 already in flight, 2 already cached
+	for i := 0; i < n; i++ {
+		ttl[i] = verifNondetInt64()
+		verifAssume(ttl[i] >= 1 && ttl[i] < lim)
+		multi[i] = CT(verifGetCache(keys[i]), time.Duration(ttl[i])*time.Millisecond)
+		pre[i] = verifChoose(3)
+		if pre[i] >= 1 {
+			c.Flight(keys[i], "GET", time.Duration(lim)*time.Millisecond, now)
+		}
+		if pre[i] == 2 {
+			c.Update(keys[i], "GET", strmsg(typeSimpleString, "old"))
+		}
+	}
+	results := make([]RedisResult, n)
+	entries := map[int]CacheEntry{}
+	missed := c.Flights(now, multi, results, entries)
+	mi := 0
+	for i := 0; i < n; i++ {
+		switch pre[i] {
+		case 0:
+			verifAssert(mi < len(missed) && missed[mi] == i, "every missed command is reported as missed, in order")
+			mi++
+			e := c.store[keys[i]].cache["GET"].Value.(*cacheEntry)
+			verifAssert(e.val.typ == 0 && e.val.getExpireAt() == t0+ttl[i], "a missed command is put in flight with its own client TTL")
+			verifReach("missed")
+		case 1:
+			verifAssert(entries[i] != nil, "an in-flight command is waited for")
+		default:
+			v, err := results[i].ToString()
+			verifAssert(err == nil && v == "old", "a cached command is served positionally")
+		}
+	}
+	verifAssert(mi == len(missed), "nothing else is reported as missed")
+}
